@@ -44,10 +44,35 @@ func monitorC13(cfg CheckConfig, res *hx.Result, traces []*Trace) error {
 				chosen = append(chosen, commits[k])
 			}
 		}
-		for _, at := range chosen {
+		// what a save at the end of the history writes: left behind as the temp file by a node that crashed in
+		// that save just before the rename (or one byte earlier), it is what a node started again in the same
+		// directory finds next to its state file
+		var leftover []byte
+		{
+			end := filepath.Join(dir, fmt.Sprintf("end%d.gob", ti))
+			e := NewImpl(t.U)
+			e.Gobpath = end
+			old := app.PersistMinDuration
+			app.PersistMinDuration = -1
+			for _, op := range t.H.Ops {
+				e.Do(op)
+			}
+			app.PersistMinDuration = old
+			leftover, _ = os.ReadFile(end)
+			os.Remove(end)
+		}
+		for n, at := range chosen {
 			// the node that never stops; it saves its state the way a real node does: from inside
 			// Commit (PersistMinDuration < 0 makes every Commit save)
 			path := filepath.Join(dir, fmt.Sprintf("h%d-%d.gob", ti, at))
+			planted := ""
+			if len(leftover) > 1 && n%2 == 0 {
+				planted = fmt.Sprintf(" (the directory held the temp file of a save that crashed before its rename, %d bytes)", len(leftover)-(n/2)%2)
+				res.Count("c13:leftover-temp-file")
+				if err := os.WriteFile(path+".tmp", leftover[:len(leftover)-(n/2)%2], 0o644); err != nil {
+					return err
+				}
+			}
 			a := NewImpl(t.U)
 			a.Gobpath = path
 			old := app.PersistMinDuration
@@ -91,7 +116,7 @@ func monitorC13(cfg CheckConfig, res *hx.Result, traces []*Trace) error {
 			if fail != "" {
 				ops := append(append([]*Op{}, t.H.Ops[:at+1]...), &Op{Kind: "state"})
 				ops = append(ops, t.H.Ops[at+1:]...)
-				specViolation(cfg, res, "restart-differs", fmt.Sprintf("save after op %d: %s", at, fail), t.U, ops)
+				specViolation(cfg, res, "restart-differs", fmt.Sprintf("save after op %d: %s%s", at, fail, planted), t.U, ops)
 				return nil
 			}
 			res.Evaluations++
